@@ -224,11 +224,19 @@ SPECIAL = {"SO3": _special_so3, "SE3": _special_se3,
            "SE2": lambda: [np.eye(3), np.array([[-1.0, 0, 1], [0, -1, 2], [0, 0, 1]]), np.array([[0.0, -1, 0], [1, 0, 3], [0, 0, 1]])]}
 
 
+_PRINT0 = dict(np.get_printoptions())
+
+
+def global_state():
+    """process-wide state a library call could leave changed (then the SAME call later returns something else)"""
+    return repr(sorted(np.get_printoptions().items(), key=lambda kv: kv[0])) + repr(sorted(np.geterr().items()))
+
+
 def reflection_part(j):
     n = 0
     for cname in elems.MAIN8 + elems.EXTRA + ["SpatialInertia"]:
         C = elems.CLS[cname]
-        for m in (1, 2, 3):
+        for m in (0, 1, 2, 3):
             names = [a for a in dir(C) if not a.startswith("_")] + ["__repr__", "__str__", "__len__", "__iter__", "__neg__"]
             for name in names:
                 if name in SKIP_METHODS:
@@ -238,6 +246,7 @@ def reflection_part(j):
                 if special is not None and m == 3:
                     x.data = [a.copy() for a in special()]         # identity / quarter / half turn values
                 before = snap(x)
+                g0 = global_state()
                 try:
                     attr = inspect.getattr_static(C, name)
                 except AttributeError:
@@ -260,6 +269,12 @@ def reflection_part(j):
                 except Exception:  # noqa: BLE001  (crashes are other properties' subject)
                     pass
                 n += 1
+                if global_state() != g0:
+                    j.fail("%s|%s.%s|len=%d|process-wide-state-changed" % (PID, cname, name, m),
+                           {"kind": "reflection", "cls": cname, "member": name, "len": m,
+                            "printoptions": {k: str(v) for k, v in np.get_printoptions().items()}}, cid)
+                    np.set_printoptions(**_PRINT0)
+                    continue
                 if snap(x) != before:
                     j.fail("%s|%s.%s|len=%d|receiver-modified" % (PID, cname, name, m),
                            {"kind": "reflection", "cls": cname, "member": name, "len": m}, cid)
@@ -406,7 +421,7 @@ def run(tier):
     # EVERY live object compared after EVERY step
     import sharelib
     rsh = run_tlc("Sharing", "Sharing", stream=True, timeout=900)
-    shclasses = elems.MAIN8 if thorough else ["SE3", "UnitQuaternion", "Twist3", "SO2"]
+    shclasses = (elems.MAIN8 + elems.EXTRA) if thorough else ["SE3", "UnitQuaternion", "Twist3", "SO2", "SpatialVelocity", "Plucker"]
     n_sh, seen_sh = 0, set()
     for h in rsh.iter_json():
         key = json.dumps([st["call"] for st in h], sort_keys=True)
